@@ -108,6 +108,7 @@ func clashPair(r *wvlib.Rng, shape string) (*wvlib.Build, *wvlib.Build) {
 	return old, nw
 }
 
+// the first three are the recorded classes of finding F8; the other five failed too until F25, F26 and F27 were repaired
 var clashShapes = []string{"dir->file-new", "dir->file-renamed", "file->dir-containing-own-rename", "dir->symlink-child-renamed-out",
 	"dir->symlink-into-kept-dir", "symlink->file-copy-of-its-target", "emptydir->file-copy", "file->symlink-file-renamed"}
 var benignKindShapes = []string{"symlink->file", "file->symlink", "symlink->dir", "emptydir->file", "file->dir-not-source", "dir->symlink-plain", "temp-name-lookalike", "temp-name-lookalike-2"}
